@@ -1,6 +1,6 @@
 #!/bin/bash
 # usage: tools/try_seed.sh <patch.diff> <check ids...> : applies a seeded change to /repo, runs the quick checks, reverts.
-P=$1; shift
+P=$(realpath $1); shift
 git -C /repo apply "$P" || { echo "patch does not apply"; exit 2; }
 for id in "$@"; do
   echo "== $id"; timeout 1800 ./check $id --tier quick 2>&1 | grep -E "^(VIOLATION|KNOWN|OK|  #)" | head -8
